@@ -59,3 +59,7 @@ Definition fchecks2 := run_checks Z f2ctx fpred2 fquant2 fdequant2 fexact2 Z.eqb
 Definition frun2 (e64b intervals:Z) (r2:nat) (data:list Z) :=
   let c := {| fc := fctx_of e64b intervals data; frow := r2 |} in
   let '(qs, es, rs) := fenc2 c [] data in (rs, Z.of_nat (length es), fchecks2 c [] data, freq (fc c), Fb (fmedian (fc c))).
+
+(* the hypothesis of the unconditional lock-step theorems of the 2-D and 3-D kernels, decidably: 2 .. 2^24 intervals, 1/e not negative *)
+Definition ctx_ok2b (c:fctx) : bool := (1 <=? fradius c) && (2 * fradius c <? 2 ^ 24) && fle f32_zero (frecip c).
+Definition frun_ctxok (e64b intervals:Z) (data:list Z) : bool := ctx_ok2b (fctx_of e64b intervals data).
